@@ -6,9 +6,13 @@ From Coq Require Import List NArith ZArith Bool Arith Lia String.
 Import ListNotations.
 From S4.Base Require Import Bytes Chunk.
 From S4.Spec Require Import LinesSpec WindowSpec.
+From S4.Spec Require RecordsSpec JournalSpec.
 From S4.Model Require Lines Syslines Search Merge Coord Strftime Print Summary Gate.
+From S4.Model Require Calendar Year Records RecordRender LayoutDetect Evtx Journal.
+From S4.Gen Require FixedStructTables.
 From S4.Model Require Import Program.
 From S4.Proofs Require Import ProgramProofs.
+From S4.Proofs Require FixedStructTablesOk JournalWindow.
 
 (* a line is dated iff it begins with a digit d: instant d seconds *)
 Definition dated_ex (l : list N) : option Z :=
@@ -17,6 +21,18 @@ Definition dated_ex (l : list N) : option Z :=
   | [] => None
   end.
 Definition dtspan_ex (l : list N) : nat * nat := (0, 1)%nat.
+(* year-less notation of the examples: a capital letter A..L = the month, a digit 1..9 = the day, midnight *)
+Definition ydate_ex (l : list N) : option Year.ymsg :=
+  match l with
+  | m :: d :: _ => if ((65 <=? m) && (m <=? 76) && (49 <=? d) && (d <=? 57))%N
+                   then Some (Year.mkMsg (Z.of_N (m - 64)) (Z.of_N (d - 48)) 0%Z) else None
+  | _ => None
+  end.
+(* journal entries are rendered as `--journal-output cat` (Model/Journal.render_cat), their merge
+   instant is the receive time; libsystemd is the reference oracle of Model/Journal.v *)
+Definition O_ex : oracles :=
+  mkOracles dated_ex dtspan_ex ydate_ex RecordRender.f32_int_text Journal.render_cat
+            (fun e => (Journal.e_time e * 1000)%Z) Journal.ref_seek_head Journal.ref_seek_realtime.
 
 Definition src_ex (n : string) : Summary.source :=
   {| Summary.s_name := s2b n; Summary.s_nchars := String.length n; Summary.s_width := String.length n |}.
@@ -26,7 +42,7 @@ Definition f0 : file := s2b ("1 a" ++ nl ++ "2 b" ++ nl ++ " c" ++ nl ++ "2 d" +
 Definition f1 : file := s2b ("0 x" ++ nl ++ "2 y" ++ nl ++ "3 z" ++ nl).
 Definition f2 : file := s2b ("2 p" ++ nl ++ "5 q" ++ nl).
 Definition files_ex : list pfile :=
-  [mkPfile (src_ex "a") false f0; mkPfile (src_ex "bb") true f1; mkPfile (src_ex "c") false f2].
+  [mkPfile (src_ex "a") false f0 KText; mkPfile (src_ex "bb") true f1 KText; mkPfile (src_ex "c") false f2 KText].
 
 Definition cli_ex : Summary.cli :=
   {| Summary.c_colour := false; Summary.c_prepend_file := true; Summary.c_align := true;
@@ -48,7 +64,7 @@ Fixpoint greedy (fuel cap : nat) (cands : list Coord.event) (s : Coord.state) : 
            | None => []
            end
   end.
-Definition init_ex := Coord.init (tags_of (spec_sources dated_ex dtspan_ex opts_ex files_ex)).
+Definition init_ex := Coord.init (tags_of (spec_sources O_ex opts_ex files_ex)).
 (* capacity 1, the coordinator first: workers send only when nothing else can happen *)
 Definition sched_lazy : schedule :=
   greedy 200 1 [Coord.Print; Coord.Recv 0; Coord.Recv 1; Coord.Recv 2; Coord.Send 0; Coord.Send 1; Coord.Send 2] init_ex.
@@ -61,10 +77,10 @@ Definition expected_ex : bytes :=
        ++ "|bb:3:3 z" ++ nl ++ "|a :4:4 e|" ++ nl).
 
 Lemma ex_domain :
-  domain dated_ex dtspan_ex files_ex /\
-  gate_passed dated_ex 3 files_ex /\ gate_passed dated_ex 64 files_ex /\
-  complete dated_ex dtspan_ex 1 opts_ex files_ex sched_lazy /\
-  complete dated_ex dtspan_ex 5 opts_ex files_ex sched_eager /\
+  domain O_ex opts_ex files_ex /\
+  gate_passed O_ex 3 files_ex /\ gate_passed O_ex 64 files_ex /\
+  complete O_ex 1 opts_ex files_ex sched_lazy /\
+  complete O_ex 5 opts_ex files_ex sched_eager /\
   sched_lazy <> sched_eager.
 Proof.
   split; [|split; [|split; [|split; [|split]]]].
@@ -80,18 +96,18 @@ Qed.
 (* the composed code-level model evaluates to the specification, at block size 3 under the lazy
    schedule and at block size 64 under the eager one; and this is the output *)
 Lemma ex_program :
-  program_m dated_ex dtspan_ex 1 3 sched_lazy opts_ex files_ex = POk (program_spec dated_ex dtspan_ex opts_ex files_ex) /\
-  program_m dated_ex dtspan_ex 5 64 sched_eager opts_ex files_ex = POk (program_spec dated_ex dtspan_ex opts_ex files_ex) /\
-  fst (program_spec dated_ex dtspan_ex opts_ex files_ex) = Print.obs expected_ex /\
-  let t := snd (program_spec dated_ex dtspan_ex opts_ex files_ex) in
+  program_m O_ex 1 3 sched_lazy opts_ex files_ex = POk (program_spec O_ex opts_ex files_ex) /\
+  program_m O_ex 5 64 sched_eager opts_ex files_ex = POk (program_spec O_ex opts_ex files_ex) /\
+  fst (program_spec O_ex opts_ex files_ex) = Print.obs expected_ex /\
+  let t := snd (program_spec O_ex opts_ex files_ex) in
   Summary.u_bytes t = 68%N /\ Summary.u_lines t = 7%N /\ Summary.u_sys t = 6%N /\
   Summary.u_first t = Some 2000000000%Z /\ Summary.u_last t = Some 4000000000%Z.
 Proof. vm_compute. repeat split; reflexivity. Qed.
 
 (* the same two equations as instances of the theorem *)
 Lemma ex_program_by_theorem :
-  program_m dated_ex dtspan_ex 1 3 sched_lazy opts_ex files_ex = POk (program_spec dated_ex dtspan_ex opts_ex files_ex) /\
-  program_m dated_ex dtspan_ex 5 64 sched_eager opts_ex files_ex = POk (program_spec dated_ex dtspan_ex opts_ex files_ex).
+  program_m O_ex 1 3 sched_lazy opts_ex files_ex = POk (program_spec O_ex opts_ex files_ex) /\
+  program_m O_ex 5 64 sched_eager opts_ex files_ex = POk (program_spec O_ex opts_ex files_ex).
 Proof.
   destruct ex_domain as (D & G3 & G64 & C1 & C5 & _).
   split; apply program_correct; assumption || reflexivity.
@@ -99,27 +115,27 @@ Qed.
 
 (* an incomplete schedule is reported, not silently accepted *)
 Lemma ex_incomplete :
-  program_m dated_ex dtspan_ex 1 3 (firstn 10 sched_lazy) opts_ex files_ex = PNotFinal /\
-  program_m dated_ex dtspan_ex 1 3 [Coord.Print] opts_ex files_ex = PSchedule.
+  program_m O_ex 1 3 (firstn 10 sched_lazy) opts_ex files_ex = PNotFinal /\
+  program_m O_ex 1 3 [Coord.Print] opts_ex files_ex = PSchedule.
 Proof. vm_compute. split; reflexivity. Qed.
 
 (* a file the block-zero gate rejects sends no message (not in the domain of program_correct) *)
 Definition f_small : file := s2b "1 a".
-Definition files_small : list pfile := [mkPfile (src_ex "a") false f_small].
+Definition files_small : list pfile := [mkPfile (src_ex "a") false f_small KText].
 Lemma ex_gate_rejects :
   Gate.gate dated_ex 64 f_small = Gate.FileErrTooSmall /\
-  exists out t, program_m dated_ex dtspan_ex 1 64 [Coord.Send 0; Coord.Recv 0; Coord.Send 0; Coord.Recv 0]
+  exists out t, program_m O_ex 1 64 [Coord.Send 0; Coord.Recv 0; Coord.Send 0; Coord.Recv 0]
                           (mkOptions cli_ex None None) files_small = POk (out, t) /\ out = [].
 Proof. split; [vm_compute; reflexivity|]. eexists. eexists. vm_compute. split; reflexivity. Qed.
 
 (* ---------------------------------------------------------------- the hypotheses are needed *)
 (* a non-chronological file: the program prints file order, the specification sorts *)
 Definition f_uns : file := s2b ("3 aaa" ++ nl ++ "1 bbb" ++ nl ++ "2 ccc" ++ nl).
-Definition files_uns : list pfile := [mkPfile (src_ex "a") false f_uns].
+Definition files_uns : list pfile := [mkPfile (src_ex "a") false f_uns KText].
 Definition opts_plain : options := mkOptions (undecorated cli_ex) None None.
 Definition sched_uns : schedule :=
   greedy 200 1 [Coord.Print; Coord.Recv 0; Coord.Send 0]
-         (Coord.init (tags_of (spec_sources dated_ex dtspan_ex opts_plain files_uns))).
+         (Coord.init (tags_of (spec_sources O_ex opts_plain files_uns))).
 
 Definition sorted_uns : bytes := s2b ("1 bbb" ++ nl ++ "2 ccc" ++ nl ++ "3 aaa" ++ nl).
 
@@ -128,13 +144,13 @@ Lemma ex_chronological_needed :
 Proof. unfold file_chronological. vm_compute. discriminate. Qed.
 
 Lemma ex_unsorted_refuted :
-  span_ok dtspan_ex /\ file_msgs_2bytes dated_ex f_uns /\ gate_passed dated_ex 64 files_uns /\
-  complete dated_ex dtspan_ex 1 opts_plain files_uns sched_uns /\
-  exists out t, program_m dated_ex dtspan_ex 1 64 sched_uns opts_plain files_uns = POk (out, t) /\
+  span_ok dtspan_ex /\ file_msgs_2bytes dated_ex f_uns /\ gate_passed O_ex 64 files_uns /\
+  complete O_ex 1 opts_plain files_uns sched_uns /\
+  exists out t, program_m O_ex 1 64 sched_uns opts_plain files_uns = POk (out, t) /\
                 Print.payload out = f_uns /\
-                Print.payload (fst (program_spec dated_ex dtspan_ex opts_plain files_uns)) = sorted_uns /\
-                program_m dated_ex dtspan_ex 1 64 sched_uns opts_plain files_uns
-                <> POk (program_spec dated_ex dtspan_ex opts_plain files_uns).
+                Print.payload (fst (program_spec O_ex opts_plain files_uns)) = sorted_uns /\
+                program_m O_ex 1 64 sched_uns opts_plain files_uns
+                <> POk (program_spec O_ex opts_plain files_uns).
 Proof.
   split; [intro l; cbn; lia|]. split; [repeat constructor; vm_compute; discriminate|].
   split; [repeat constructor; vm_compute; reflexivity|].
@@ -145,13 +161,13 @@ Qed.
 
 (* a file that stage 1 rejects at this block size: the specification has a message, the program prints none *)
 Lemma ex_gate_needed :
-  domain dated_ex dtspan_ex files_small /\
+  domain O_ex (mkOptions cli_ex None None) files_small /\
   Gate.gate dated_ex 64 f_small <> Gate.FileOk /\
-  complete dated_ex dtspan_ex 1 (mkOptions cli_ex None None) files_small
+  complete O_ex 1 (mkOptions cli_ex None None) files_small
            [Coord.Send 0; Coord.Recv 0; Coord.Send 0; Coord.Recv 0; Coord.Print; Coord.Send 0; Coord.Recv 0] /\
-  length (spec_events dated_ex dtspan_ex (mkOptions cli_ex None None) files_small) = 1%nat /\
-  program_m dated_ex dtspan_ex 1 64 [Coord.Send 0; Coord.Recv 0; Coord.Send 0; Coord.Recv 0]
-            (mkOptions cli_ex None None) files_small <> POk (program_spec dated_ex dtspan_ex (mkOptions cli_ex None None) files_small).
+  length (spec_events O_ex (mkOptions cli_ex None None) files_small) = 1%nat /\
+  program_m O_ex 1 64 [Coord.Send 0; Coord.Recv 0; Coord.Send 0; Coord.Recv 0]
+            (mkOptions cli_ex None None) files_small <> POk (program_spec O_ex (mkOptions cli_ex None None) files_small).
 Proof.
   split; [split; [intro l; cbn; lia|repeat constructor; vm_compute; reflexivity || discriminate]|].
   split; [vm_compute; discriminate|].
@@ -167,20 +183,119 @@ Definition dated_nl (l : list N) : option Z :=
   | [10%N] => Some 1000000000%Z
   | _ => dated_ex l
   end.
+Definition O_nl : oracles :=
+  mkOracles dated_nl dtspan_ex ydate_ex RecordRender.f32_int_text Journal.render_cat
+            (fun e => (Journal.e_time e * 1000)%Z) Journal.ref_seek_head Journal.ref_seek_realtime.
 Definition f_len1 : file := s2b (nl ++ "8 xyz" ++ nl).
-Definition files_len1 : list pfile := [mkPfile (src_ex "a") false f_len1].
+Definition files_len1 : list pfile := [mkPfile (src_ex "a") false f_len1 KText].
 Definition opts_len1 : options := mkOptions (undecorated cli_ex) (Some 2000000000%Z) None.
 
 Definition len1_expected : bytes := s2b ("8 xyz" ++ nl).
 
 Lemma ex_len1_refuted :
-  file_chronological dated_nl f_len1 /\ span_ok dtspan_ex /\ gate_passed dated_nl 64 files_len1 /\
+  file_chronological dated_nl f_len1 /\ span_ok dtspan_ex /\ gate_passed O_nl 64 files_len1 /\
   (file_msgs_2bytes dated_nl f_len1 -> False) /\
-  Print.payload (fst (program_spec dated_nl dtspan_ex opts_len1 files_len1)) = len1_expected /\
-  forall sched, program_m dated_nl dtspan_ex 1 64 sched opts_len1 files_len1 = PWorker 0 (GErr 3).
+  Print.payload (fst (program_spec O_nl opts_len1 files_len1)) = len1_expected /\
+  forall sched, program_m O_nl 1 64 sched opts_len1 files_len1 = PWorker 0 (GErr 3).
 Proof.
   split; [vm_compute; reflexivity|]. split; [intro l; cbn; lia|].
   split; [repeat constructor; vm_compute; reflexivity|].
   split; [intro H; inversion H as [|? ? H1 _]; vm_compute in H1; apply H1; reflexivity|].
   split; [vm_compute; reflexivity|]. intro sched. vm_compute. reflexivity.
 Qed.
+
+(* ================================================================ a MIXED-KIND invocation *)
+(* five sources: a text file (no final newline); a lastlog file of two records with EQUAL times
+   (layout found by score_file); an event log whose enumeration is not in time order and holds an
+   undecodable record; a journal with two entries of equal time; a streamed year-less text log that
+   crosses a year boundary (mtime in January 2021: "L9" = 9 Dec is dated 2020, "A2" = 2 Jan 2021).
+   Records, the event and the journal entries TIE at T0: source order decides. *)
+Definition recf : file := FixedStructTablesOk.lx86_lastlog_rec ++ FixedStructTablesOk.lx86_lastlog_rec.
+Definition T0 : Z := 1700000000.
+Definition evs_mx : list (option (Z * bytes)) :=
+  [Some ((T0 * 1000000000 + 5)%Z, s2b ("ev late" ++ nl)); None;
+   Some ((T0 * 1000000000)%Z, s2b ("ev tie" ++ nl ++ " more" ++ nl))].
+Definition jr (t : Z) (m : string) : Journal.entry :=
+  Journal.mkEntry t (s2b "c") None [(Journal.k_message, s2b m)].
+Definition j_mx : Journal.journal :=
+  [jr (T0 * 1000000 - 1) "j early"; jr (T0 * 1000000) "j tie"; jr (T0 * 1000000) "j tie2"].
+Definition fy : file := s2b ("L9 dec" ++ nl ++ " cont" ++ nl ++ "A2 jan" ++ nl).
+Definition mtime_mx : Z := 1609459200 + 86400 * 10.
+Definition ftxt : file := s2b ("1 a" ++ nl ++ "2 b").
+Definition lastlog_name : bytes := s2b "Fs_Linux_x86_Lastlog".
+Definition files_mx : list pfile :=
+  [mkPfile (src_ex "t") false ftxt KText;
+   mkPfile (src_ex "rec") false recf (KRecords 2 lastlog_name);
+   mkPfile (src_ex "e") false [] (KEvtxFile evs_mx);
+   mkPfile (src_ex "jj") false [] (KJournalFile j_mx);
+   mkPfile (src_ex "y") true fy (KYearless 0 mtime_mx)].
+Definition cli_mx : Summary.cli :=
+  {| Summary.c_colour := false; Summary.c_prepend_file := true; Summary.c_align := true;
+     Summary.c_psep := s2b ":"; Summary.c_fmt := None; Summary.c_off := 0%Z;
+     Summary.c_sep := s2b "|"; Summary.c_summary := true |}.
+Definition opts_mx : options := mkOptions cli_mx (Some 2000000000%Z) None.
+Definition sched_mx : schedule :=
+  greedy 400 2 [Coord.Send 4; Coord.Send 3; Coord.Send 2; Coord.Send 1; Coord.Send 0;
+                Coord.Recv 0; Coord.Recv 1; Coord.Recv 2; Coord.Recv 3; Coord.Recv 4; Coord.Print]
+         (Coord.init (tags_of (spec_sources O_ex opts_mx files_mx))).
+
+Definition recline : string := "ll_time 1700000000 ll_line 'pts/1' ll_host 'h1.example'".
+Definition expected_mx : bytes :=
+  s2b ("t  :2 b|" ++ nl ++ "y  :L9 dec" ++ nl ++ "y  : cont" ++ nl ++ "|y  :A2 jan" ++ nl ++ "|jj :j early" ++ nl ++ "|"
+       ++ "rec:" ++ recline ++ nl) ++ [0%N] ++ s2b ("|rec:" ++ recline ++ nl) ++ [0%N]
+  ++ s2b ("|e  :ev tie" ++ nl ++ "e  : more" ++ nl ++ "|jj :j tie" ++ nl ++ "|jj :j tie2" ++ nl ++ "|e  :ev late" ++ nl ++ "|").
+
+Lemma forallb_Forall {A} (p : A -> bool) (P : A -> Prop) l : (forall x, p x = true -> P x) -> forallb p l = true -> Forall P l.
+Proof. intros H E. apply Forall_forall. intros x Hx. apply H. exact (proj1 (forallb_forall p l) E x Hx). Qed.
+
+Lemma ex_mixed_domain :
+  domain O_ex opts_mx files_mx /\ gate_passed O_ex 64 files_mx /\ gate_passed O_ex 8 files_mx /\
+  complete O_ex 2 opts_mx files_mx sched_mx.
+Proof.
+  split; [|split; [|split]].
+  - split; [intro l; cbn; lia|].
+    constructor; [|constructor; [|constructor; [|constructor; [|constructor; [|constructor]]]]].
+    + unfold src_ok; cbn [pf_kind pf_data op_after op_before opts_mx]. split; [vm_compute; reflexivity|]. repeat constructor; vm_compute; discriminate.
+    + unfold src_ok; cbn [pf_kind pf_data op_after op_before opts_mx]. split; [eexists; vm_compute; reflexivity|].
+      split; [eexists; eexists; split; [vm_compute; reflexivity|split; [vm_compute; reflexivity|]];
+              apply (forallb_Forall (fun r => (0 <=? snd (RecordsSpec.r_tv r))%Z && (snd (RecordsSpec.r_tv r) <? 1000000)%Z));
+              [intros x Hx; apply andb_true_iff in Hx as [H1 H2]; apply Z.leb_le in H1; apply Z.ltb_lt in H2; lia|vm_compute; reflexivity]|].
+      split; [apply (forallb_Forall (fun b => (b <? 256)%N)); [intros x Hx; apply N.ltb_lt; exact Hx|vm_compute; reflexivity]|].
+      exact FixedStructTablesOk.f32_int_text_len.
+    + unfold src_ok; cbn [pf_kind pf_data op_after op_before opts_mx].
+      apply Forall_cons; [apply nl_terminated_b_ok; vm_compute; reflexivity|].
+      apply Forall_cons; [exact I|]. apply Forall_cons; [apply nl_terminated_b_ok; vm_compute; reflexivity|constructor].
+    + unfold src_ok; cbn [pf_kind pf_data op_after op_before opts_mx]. split; [exact JournalWindow.ref_oracle_J1|].
+      split; [cbn; lia|]. split; [intros t [<-|[<-|[<-|[]]]]; vm_compute; reflexivity|].
+      split; [vm_compute; reflexivity|]. split; [exact I|].
+      split; [repeat (apply Forall_cons; [apply nl_terminated_b_ok; vm_compute; reflexivity|]); constructor|].
+      vm_compute. repeat constructor; discriminate.
+    + unfold src_ok; cbn [pf_kind pf_data op_after op_before opts_mx]. eexists. split; [vm_compute; reflexivity|].
+      split; [vm_compute; reflexivity|]. repeat constructor; vm_compute; discriminate.
+  - repeat constructor; try (vm_compute; reflexivity).
+    intros tab E. vm_compute in E. inversion E; subst tab. vm_compute. reflexivity.
+  - repeat constructor; try (vm_compute; reflexivity).
+    intros tab E. vm_compute in E. inversion E; subst tab. vm_compute. reflexivity.
+  - eexists. split; vm_compute; reflexivity.
+Qed.
+
+Lemma ex_mixed_program :
+  program_m O_ex 2 64 sched_mx opts_mx files_mx = POk (program_spec O_ex opts_mx files_mx) /\
+  program_m O_ex 2 8 sched_mx opts_mx files_mx = POk (program_spec O_ex opts_mx files_mx) /\
+  fst (program_spec O_ex opts_mx files_mx) = Print.obs expected_mx /\
+  let t := snd (program_spec O_ex opts_mx files_mx) in
+  Summary.u_bytes t = Print.blen expected_mx /\ Summary.u_sys t = 3%N /\ Summary.u_fixed t = 2%N /\
+  Summary.u_evtx t = 2%N /\ Summary.u_journal t = 3%N /\ Summary.u_lines t = 4%N /\
+  Summary.u_first t = Some 2000000000%Z /\ Summary.u_last t = Some (T0 * 1000000000 + 5)%Z.
+Proof. vm_compute. repeat split; reflexivity. Qed.
+
+Lemma ex_mixed_by_theorem :
+  program_m O_ex 2 64 sched_mx opts_mx files_mx = POk (program_spec O_ex opts_mx files_mx).
+Proof. destruct ex_mixed_domain as (D & G & _ & C). apply program_correct; assumption || reflexivity. Qed.
+
+(* the year-less source: the instants the window and the merge use are those assign_years infers,
+   here the true ones (9 Dec 2020, 2 Jan 2021) *)
+Lemma ex_yearless :
+  NoDup (yl_heads O_ex fy) /\
+  Year.assign_years 2 0 (Year.year_of_seconds 0 mtime_mx) (yl_msgs O_ex fy) = Some [(2020, 1607472000000000000); (2021, 1609545600000000000)]%Z.
+Proof. split; [repeat constructor; vm_compute; intuition discriminate|vm_compute; reflexivity]. Qed.
